@@ -1,6 +1,6 @@
 """C04 — garbage is reclaimed and a finished run leaves nothing behind (static clauses)."""
 from mirlib import *
-from rules import vmx, psc, c03
+from rules import vmx, psc, c03, tables
 from rules.psc import sym, strip
 from rules.shared import deref
 
@@ -59,7 +59,7 @@ def run(ctx, rep):
            'destroy() must free every managed object: it calls sweep() with the bitmap in state %s (sweep frees only objects that have a clear bit, so with a shorter/empty bitmap nothing or not everything is freed)'
            % sorted(set(probs)) if probs and not direct else 'destroy() frees every managed object', dest.loc())
     # ---- R04.3 ---------------------------------------------------------------------------------
-    ca = F.fn('compiler::Compiler::compile_ast')
+    ca = tables.bytecode_builder(ctx)
     loops = ca.natural_loops()
     okc = False
     for h, body in loops:
